@@ -27,6 +27,7 @@ RULE = ('cases = (a) control-point tuples of degree 0..8 with parameters t, (b) 
         'from the axis / out-of-range roots, cluster placed at every rank), (c) rational functions with common zeros of order '
         '0..3, (d) one symbolic-value execution per shard for degrees 0..8; distinct by full spec; non-trivial if an oracle '
         'verdict was reached')
+RULE += '; a root whose close neighbour fails the condition, roots 1e3..1e12 out of range, micro-scale rational limits'
 ASSUMPTIONS = ['Fraction arithmetic, the Sturm implementation in vt/ref/exact.py and sympy.expand are correct',
                'a root is judged only if it is simple, >= 1e-4 from every other real root and from the real part of every '
                'near-real complex root (numpy.roots is used as a hint for this exclusion only), satisfies the condition with '
